@@ -1,16 +1,257 @@
-import CentrifugeVerif.Model.HistoryHub
+import CentrifugeVerif.Proofs.HistoryHubBroker
 /-!
-# C19 — Idempotent and versioned publishes suppress exactly the duplicates (memory stream broker part)
-(first cut; the general theorems follow)
+# C19 — Idempotent and versioned publishes suppress exactly the duplicates
+(memory stream broker part; Redis/Lua and the map brokers are not covered here)
+
+Statement: a publish repeating an idempotency key within its result TTL returns the original
+stream position, is marked suppressed, adds no history entry and reaches no subscriber; after the
+TTL it is a fresh publish.  A versioned publish is suppressed exactly when the channel already
+holds an equal or higher version in the same version epoch (unversioned publishes do not reset that
+protection), and suppressed publishes change nothing.
+
+What is proved about the code's model (`Model/HistoryHub.lean`), for all states, operation
+sequences and times:
+* `idem_within_ttl`, `idem_after_ttl_fresh`, `idem_suppressed_iff`, `idem_changes_nothing`;
+* `version_suppressed_iff` — against the stream's *current* version pair;
+* `suppressed_no_broadcast`, `stored_broadcast_once`;
+* `version_suppressed_frame_partial` — a version-suppressed publish leaves streams, epochs and the
+  result cache untouched, **but not the expiry deadlines**.
+Three clauses of the statement do **not** hold for the code; each has a machine-checked
+counter-witness below and a replay on the real broker (findings C19-1, C19-2, C19-3):
+* an unversioned publish overwrites the version pair with `(0, "")` (`unversioned_resets_version`),
+  so "unversioned publishes do not reset that protection" fails;
+* the deadlines are refreshed before the version check, so "suppressed publishes change nothing"
+  fails for the history's lifetime;
+* the result-cache key is `channel ++ "_" ++ key`, so different (channel, key) pairs can collide and
+  a first-time publish is suppressed ("exactly the duplicates" fails).
 -/
 namespace CentrifugeVerif.HistoryHub
-open CentrifugeVerif.MemStream
+open CentrifugeVerif.MemStream CentrifugeVerif.AbsStream
 
-/-- an idempotency-cache hit returns the cached position, suppressed, and leaves the broker unchanged -/
-theorem c19_idem_hit_changes_nothing (b : Broker) (ch data : String) (o : PubOpts) (now : Nat) (p : Pos)
-    (hk : o.idemKey ≠ "") (hit : b.cacheGet ch o.idemKey now = some p) :
-    b.publish ch data o now = (b, ⟨p, .idempotency, none⟩) := by
-  unfold Broker.publish
-  simp [hk, hit]
+/-! ## idempotency -/
+
+/-- **exact characterisation**: a publish is suppressed as idempotent iff it carries a key and the
+result cache holds a live entry under `cacheKey channel key` -/
+theorem idem_suppressed_iff (b : Broker) (ch data : String) (o : PubOpts) (now : Nat) :
+    (b.publish ch data o now).2.suppress = .idempotency ↔
+      o.idemKey ≠ "" ∧ ∃ p e, b.cache (cacheKey ch o.idemKey) = some (p, e) ∧ now < e := by
+  constructor
+  · intro hs
+    rcases publish_cases b ch data o now with ⟨p, h⟩ | ⟨hm, hh, hsk⟩ | ⟨hm, hh, hsk⟩ | ⟨hm, hh⟩
+    · unfold Broker.idemHit at h
+      by_cases hk : o.idemKey ≠ ""
+      · rw [if_pos hk] at h
+        obtain ⟨e, he, hl⟩ := (cacheGet_some_iff b ch o.idemKey now p).mp h
+        exact ⟨hk, p, e, he, hl⟩
+      · simp [hk] at h
+    · rw [publish_skip b ch data o now hm hh hsk] at hs; cases hs
+    · rw [publish_store b ch data o now hm hh hsk] at hs; cases hs
+    · rw [publish_nohistory b ch data o now hm hh] at hs; cases hs
+  · rintro ⟨hk, p, e, he, hl⟩
+    have : b.idemHit ch o now = some p := by
+      unfold Broker.idemHit
+      rw [if_pos hk]
+      exact cacheGet_of_entry b ch o.idemKey now p e he hl
+    rw [publish_hit b ch data o now p this]
+
+/-- an idempotency-suppressed publish returns the cached position, changes **nothing** in the broker
+(no history entry, no deadline, no cache write) and reaches no subscriber -/
+theorem idem_changes_nothing (b : Broker) (ch data : String) (o : PubOpts) (now : Nat)
+    (hs : (b.publish ch data o now).2.suppress = .idempotency) :
+    (b.publish ch data o now).1 = b ∧ (b.publish ch data o now).2.bcast = none ∧
+      ∃ e, b.cache (cacheKey ch o.idemKey) = some ((b.publish ch data o now).2.pos, e) ∧ now < e := by
+  rcases publish_cases b ch data o now with ⟨p, h⟩ | ⟨hm, hh, hsk⟩ | ⟨hm, hh, hsk⟩ | ⟨hm, hh⟩
+  · rw [publish_hit b ch data o now p h]
+    refine ⟨rfl, rfl, ?_⟩
+    unfold Broker.idemHit at h
+    by_cases hk : o.idemKey ≠ ""
+    · rw [if_pos hk] at h
+      exact (cacheGet_some_iff b ch o.idemKey now p).mp h
+    · simp [hk] at h
+  · rw [publish_skip b ch data o now hm hh hsk] at hs; cases hs
+  · rw [publish_store b ch data o now hm hh hsk] at hs; cases hs
+  · rw [publish_nohistory b ch data o now hm hh] at hs; cases hs
+
+/-- a keyed publish that is not suppressed saves its position under the cache key with
+`ExpireAt = now + seconds·1000` -/
+theorem keyed_publish_saves (b : Broker) (ch data : String) (o : PubOpts) (now : Nat)
+    (hk : o.idemKey ≠ "") (hs : (b.publish ch data o now).2.suppress = .none) :
+    (b.publish ch data o now).1.cache (cacheKey ch o.idemKey) =
+      some ((b.publish ch data o now).2.pos, now + idemSeconds o * 1000) := by
+  rcases publish_cases b ch data o now with ⟨p, h⟩ | ⟨hm, hh, hsk⟩ | ⟨hm, hh, hsk⟩ | ⟨hm, hh⟩
+  · rw [publish_hit b ch data o now p h] at hs; cases hs
+  · rw [publish_skip b ch data o now hm hh hsk] at hs; cases hs
+  · rw [publish_store b ch data o now hm hh hsk]
+    simp [Broker.saved, hk, Broker.cacheSave]
+  · rw [publish_nohistory b ch data o now hm hh]
+    simp [Broker.saved, hk, Broker.cacheSave]
+
+/-- **idem_within_ttl**: after a keyed publish at `t0` that was not suppressed, *whatever* happens
+next before `t0 + resultTTL` (any operations on any channels, sweeper wake-ups included), a publish
+to the same channel with the same key before `t0 + resultTTL` returns the original position,
+suppressed as idempotent, leaves the broker state exactly as it was and reaches no subscriber. -/
+theorem idem_within_ttl (b : Broker) (ch data : String) (o : PubOpts) (t0 : Nat)
+    (hk : o.idemKey ≠ "") (hs : (b.publish ch data o t0).2.suppress = .none)
+    (ops : List Op) (hops : ∀ op ∈ ops, opTimeMs op < t0 + idemSeconds o * 1000)
+    (data' : String) (o' : PubOpts) (now : Nat) (hk' : o'.idemKey = o.idemKey)
+    (hnow : now < t0 + idemSeconds o * 1000) :
+    (run (b.publish ch data o t0).1 ops).publish ch data' o' now =
+      (run (b.publish ch data o t0).1 ops, ⟨(b.publish ch data o t0).2.pos, .idempotency, none⟩) := by
+  have hsave := keyed_publish_saves b ch data o t0 hk hs
+  have hkeep := run_keeps_entry _ ops _ _ _ hsave hops
+  apply publish_hit
+  unfold Broker.idemHit
+  rw [hk', if_pos hk]
+  exact cacheGet_of_entry _ ch o.idemKey now _ _ hkeep hnow
+
+/-- **idem_after_ttl_fresh**: when the entry under the cache key has expired (`ExpireAt ≤ now`) or
+does not exist, the publish is not suppressed as idempotent — it takes the normal path (and saves a
+new result when it is stored). -/
+theorem idem_after_ttl_fresh (b : Broker) (ch data : String) (o : PubOpts) (now : Nat)
+    (hexp : ∀ p e, b.cache (cacheKey ch o.idemKey) = some (p, e) → e ≤ now) :
+    (b.publish ch data o now).2.suppress ≠ .idempotency := by
+  intro hs
+  obtain ⟨_, p, e, he, hl⟩ := (idem_suppressed_iff b ch data o now).mp hs
+  have := hexp p e he
+  omega
+
+/-! ## versions -/
+
+/-- **version_suppressed_iff**: a publish is suppressed for its version iff it is not an idempotent
+repeat, history is on, the channel has a stream, `version > 0`, the version epoch is empty or equals
+the stream's current version epoch, and `version ≤` the stream's current version. -/
+theorem version_suppressed_iff (b : Broker) (ch data : String) (o : PubOpts) (now : Nat) :
+    (b.publish ch data o now).2.suppress = .version ↔
+      b.idemHit ch o now = none ∧ o.history ∧
+        ∃ s, (b.hub.chans ch).stream = some s ∧ VersionSkip o s := by
+  constructor
+  · intro hs
+    rcases publish_cases b ch data o now with ⟨p, h⟩ | ⟨hm, hh, hsk⟩ | ⟨hm, hh, hsk⟩ | ⟨hm, hh⟩
+    · rw [publish_hit b ch data o now p h] at hs; cases hs
+    · exact ⟨hm, hh, (add_skip_iff _ ch _ o _).mp hsk⟩
+    · rw [publish_store b ch data o now hm hh hsk] at hs; cases hs
+    · rw [publish_nohistory b ch data o now hm hh] at hs; cases hs
+  · rintro ⟨hm, hh, hex⟩
+    have hsk := (add_skip_iff b.hub ch ⟨data, o.version⟩ o (now / 1000)).mpr hex
+    rw [publish_skip b ch data o now hm hh hsk]
+
+/-- what a stored publish does to the stream's version pair: it is **overwritten** with the
+publish's `(version, versionEpoch)` — also by an unversioned publish (`(0, "")`). -/
+theorem stored_sets_version (s : MStream Pub) (v : Pub) (size ver : Nat) (ve : String) :
+    (s.add v size ver ve).1.topVersion = ver ∧ (s.add v size ver ve).1.topVersionEpoch = ve := ⟨rfl, rfl⟩
+
+/-- **version protection (partial)**: right after a stored publish with version `v` in epoch `ve`,
+a publish with version `0 < v' ≤ v` in the same or an empty epoch is suppressed.
+Full clause ("equal or higher version the channel already holds, unversioned publishes do not reset
+that protection") is false on the code: `unversioned_resets_version` below. -/
+theorem version_protection_partial (s : MStream Pub) (p : Pub) (size v : Nat) (ve : String) (o : PubOpts)
+    (h0 : 0 < o.version) (hle : o.version ≤ v) (hve : o.versionEpoch = "" ∨ o.versionEpoch = ve) :
+    VersionSkip o (s.add p size v ve).1 := ⟨h0, hve, hle⟩
+
+/-- a version-suppressed or idempotency-suppressed publish reaches no subscriber -/
+theorem suppressed_no_broadcast (b : Broker) (ch data : String) (o : PubOpts) (now : Nat)
+    (hs : (b.publish ch data o now).2.suppress ≠ .none) : (b.publish ch data o now).2.bcast = none := by
+  rcases publish_cases b ch data o now with ⟨p, h⟩ | ⟨hm, hh, hsk⟩ | ⟨hm, hh, hsk⟩ | ⟨hm, hh⟩
+  · rw [publish_hit b ch data o now p h]
+  · rw [publish_skip b ch data o now hm hh hsk]
+  · rw [publish_store b ch data o now hm hh hsk] at hs; exact absurd rfl hs
+  · rw [publish_nohistory b ch data o now hm hh] at hs; exact absurd rfl hs
+
+/-- an unsuppressed publish is handed to the subscribers exactly once, with the returned position,
+the assigned offset and the payload -/
+theorem stored_broadcast_once (b : Broker) (ch data : String) (o : PubOpts) (now : Nat)
+    (hs : (b.publish ch data o now).2.suppress = .none) :
+    ∃ prev, (b.publish ch data o now).2.bcast =
+      some ⟨ch, ⟨(b.publish ch data o now).2.pos.offset, ⟨data, o.version⟩⟩,
+        (b.publish ch data o now).2.pos, o.useDelta, prev⟩ := by
+  rcases publish_cases b ch data o now with ⟨p, h⟩ | ⟨hm, hh, hsk⟩ | ⟨hm, hh, hsk⟩ | ⟨hm, hh⟩
+  · rw [publish_hit b ch data o now p h] at hs; cases hs
+  · rw [publish_skip b ch data o now hm hh hsk] at hs; cases hs
+  · rw [publish_store b ch data o now hm hh hsk]; exact ⟨_, rfl⟩
+  · rw [publish_nohistory b ch data o now hm hh]; exact ⟨_, rfl⟩
+
+/-- **suppressed publishes change nothing (partial)**: a version-suppressed publish returns the
+stream's current top position and leaves every stream (contents, top, epoch, version pair), the
+epoch counter and the result cache untouched.
+Full statement — `(b.publish …).1 = b` — is false on the code: the history-TTL and meta-TTL
+deadlines of the channel are refreshed before the version check
+(`version_suppressed_extends_ttl` below). -/
+theorem version_suppressed_frame_partial (b : Broker) (ch data : String) (o : PubOpts) (now : Nat)
+    (hs : (b.publish ch data o now).2.suppress = .version) :
+    (∀ x, ((b.publish ch data o now).1.hub.chans x).stream = (b.hub.chans x).stream) ∧
+      (b.publish ch data o now).1.hub.nextEpoch = b.hub.nextEpoch ∧
+      (b.publish ch data o now).1.cache = b.cache ∧
+      ∃ s, (b.hub.chans ch).stream = some s ∧ (b.publish ch data o now).2.pos = ⟨s.top, s.epoch⟩ := by
+  rcases publish_cases b ch data o now with ⟨p, h⟩ | ⟨hm, hh, hsk⟩ | ⟨hm, hh, hsk⟩ | ⟨hm, hh⟩
+  · rw [publish_hit b ch data o now p h] at hs; cases hs
+  · rw [publish_skip b ch data o now hm hh hsk]
+    obtain ⟨h1, _, h3, h4⟩ := add_skip_spec b.hub ch ⟨data, o.version⟩ o (now / 1000) hsk
+    refine ⟨h3, ?_, rfl, h4⟩
+    have := congrArg Abs.nextEpoch h1
+    simpa [Hub.abs] using this
+  · rw [publish_store b ch data o now hm hh hsk] at hs; cases hs
+  · rw [publish_nohistory b ch data o now hm hh] at hs; cases hs
+
+/-! ## counter-witnesses (each is replayed on the real broker by the check) -/
+
+/-- finding C19-1: v=5 stored, v=3 suppressed, an unversioned publish stored, then v=3 is **stored**:
+the unversioned publish reset the version pair to `(0, "")` -/
+def c19w1 : List Op := [
+  .publish "a" "d1" { size := 3, ttl := 10000, version := 5 } 500,
+  .publish "a" "d2" { size := 3, ttl := 10000, version := 3 } 600,
+  .publish "a" "d3" { size := 3, ttl := 10000 } 700,
+  .publish "a" "d4" { size := 3, ttl := 10000, version := 3 } 800]
+
+theorem unversioned_resets_version :
+    (runOut (Broker.init 60000) c19w1).map (fun o => match o with | .pub p => some (p.pos.offset, p.suppress) | _ => none) =
+      [some (1, .none), some (1, .version), some (2, .none), some (3, .none)] := by decide
+
+/-- finding C19-2: v=5 at 0.5 s with TTL 10 s; a suppressed v=3 at 9.5 s moves the data deadline from
+second 10 to second 19, so the history survives the sweeps at seconds 10 and 11 -/
+def c19w2 : List Op := [
+  .publish "a" "d1" { size := 3, ttl := 10000, version := 5 } 500,
+  .publish "a" "d2" { size := 3, ttl := 10000, version := 3 } 9500]
+
+theorem version_suppressed_extends_ttl :
+    let b1 := run (Broker.init 60000) (c19w2.take 1)
+    let b2 := run (Broker.init 60000) c19w2
+    (b1.hub.chans "a").expires = some 10 ∧ (b2.hub.chans "a").expires = some 19 ∧
+      (((b1.tick 10).tick 11).history "a" { limit := -1 } 0 11500).2.1 = [] ∧
+      (((b2.tick 10).tick 11).history "a" { limit := -1 } 0 11500).2.1 = [⟨1, ⟨"d1", 5⟩⟩] := by decide
+
+/-- finding C19-3: (channel `a_b`, key `c`) and (channel `a`, key `b_c`) share a cache key; the
+first-time publish to `a` is answered with the other channel's position and dropped -/
+theorem cache_key_collision : cacheKey "a_b" "c" = cacheKey "a" "b_c" := by decide
+
+def c19w3 : List Op := [
+  .publish "a_b" "d1" { size := 3, ttl := 10000, idemKey := "c" } 500,
+  .publish "a" "d2" { size := 3, ttl := 10000, idemKey := "b_c" } 600]
+
+theorem idem_collision_suppresses_first_publish :
+    (runOut (Broker.init 60000) c19w3).map (fun o => match o with | .pub p => some (p.pos, p.suppress) | _ => none) =
+      [some (⟨1, 1⟩, .none), some (⟨1, 1⟩, .idempotency)] ∧
+    ((run (Broker.init 60000) c19w3).hub.chans "a").stream = none := by decide
+
+/-! ## non-vacuity of the hypotheses above -/
+
+/-- `idem_within_ttl`: key `k`, result TTL 2 s, repeated 1.9 s later after other traffic -/
+example :
+    let b := Broker.init 60000
+    let o : PubOpts := { size := 3, ttl := 10000, idemKey := "k", idemTTL := 2000 }
+    (b.publish "a" "d1" o 500).2.suppress = .none ∧
+      ((run (b.publish "a" "d1" o 500).1 [.publish "a" "x" { size := 3, ttl := 10000 } 900, .tick 1, .tick 2]).publish
+          "a" "d2" o 2400).2 = ⟨⟨1, 1⟩, .idempotency, none⟩ ∧
+      ((run (b.publish "a" "d1" o 500).1 [.publish "a" "x" { size := 3, ttl := 10000 } 900, .tick 1, .tick 2]).publish
+          "a" "d3" o 2600).2.suppress = .none := by decide
+
+/-- `version_suppressed_iff` / `version_protection_partial`: equal version, other epoch not suppressed -/
+example :
+    (runOut (Broker.init 60000) [
+      .publish "a" "d1" { size := 3, ttl := 10000, version := 5, versionEpoch := "x" } 500,
+      .publish "a" "d2" { size := 3, ttl := 10000, version := 5, versionEpoch := "x" } 600,
+      .publish "a" "d3" { size := 3, ttl := 10000, version := 5 } 700,
+      .publish "a" "d4" { size := 3, ttl := 10000, version := 2, versionEpoch := "y" } 800]).map
+      (fun o => match o with | .pub p => some p.suppress | _ => none) =
+      [some .none, some .version, some .version, some .none] := by decide
 
 end CentrifugeVerif.HistoryHub
